@@ -815,11 +815,15 @@ func main() {
 		childCompact(os.Args[2], mb)
 		return
 	}
+	if len(os.Args) >= 7 && os.Args[1] == "child-fault" {
+		childFault(os.Args[2:])
+		return
+	}
 	slog.SetDefault(slog.New(slog.NewTextHandler(io.Discard, nil)))
 	a := common.ParseArgs()
 	run := common.NewRun(a, "C03", "HV.Storage.C03Compact")
 	run.Shard = 150
-	run.Meta.Rule = "session case = a real V2 chronicler / hydraidectl compactSwamp driven through 2-6 steps (Write-inline, Close, ForceCompaction, Load self-heal, CLI) on a scratch swamp with random thresholds, with a stale node placed at the .hyd.compact path before steps; non-trivial = a compaction actually replaced the .hyd while a stale node (valid older state / foreign name / truncated / random bytes / dir) was present. concurrent case = a compaction entry point parked just before its rename (verif hook) while another goroutine calls Write/Sync/Close/Destroy/ForceCompaction on the same chronicler, plus unparked stress with writer goroutines; non-trivial = the compaction really was in flight. crash case = directory image after a prefix of the strace'd op sequence of a real compaction (torn last write, stale temps), loaded by the real chronicler; all crash images are non-trivial"
+	run.Meta.Rule = "session case = a real V2 chronicler / hydraidectl compactSwamp driven through 2-6 steps (Write-inline, Close, ForceCompaction, Load self-heal, CLI) on a scratch swamp with random thresholds, with a stale node placed at the .hyd.compact path before steps; non-trivial = a compaction actually replaced the .hyd while a stale node (valid older state / foreign name / truncated / random bytes / dir) was present. concurrent case = a compaction entry point parked just before its rename (verif hook) while another goroutine calls Write/Sync/Close/Destroy/ForceCompaction on the same chronicler, plus unparked stress with writer goroutines; non-trivial = the compaction really was in flight. fault case = a compaction entry point run in a child process under RLIMIT_FSIZE (block write or the final flush in Close fails), then recovery by the real chronicler. crash case = directory image after a prefix of the strace'd op sequence of a real compaction (torn last write, stale temps), loaded by the real chronicler; all crash images are non-trivial"
 	rng := common.NewRng(a.Seed, "C03")
 	work, err := os.MkdirTemp("", "c03-")
 	if err != nil {
@@ -900,6 +904,42 @@ func main() {
 		}
 		for _, v := range r.viol {
 			run.Violate(idx, "no call hangs", "c03_concurrent_call_hang", v)
+		}
+	}
+
+	// ---- I/O fault part (fault.go)
+	{
+		selfExe, _ := os.Executable()
+		nfault := 4
+		if a.Tier == "thorough" {
+			nfault = 40
+		}
+		type fjob struct {
+			rng   *common.Rng
+			mode  int
+			close bool
+		}
+		var fjobs []fjob
+		for r := 0; r < nfault; r++ {
+			for m := range faultModes {
+				fjobs = append(fjobs, fjob{rng.Fork(fmt.Sprintf("fault-%d-%d", r, m)), m, r%2 == 0})
+			}
+		}
+		type fres struct {
+			term  string
+			descr map[string]interface{}
+			hist  []string
+		}
+		fr := make([]fres, len(fjobs))
+		common.Parallel(len(fjobs), 8, func(i int) {
+			t, d, h := runFaultCase(fjobs[i].rng, selfExe, filepath.Join(work, fmt.Sprintf("f%d", i)), fjobs[i].mode, fjobs[i].close)
+			fr[i] = fres{t, d, h}
+		})
+		for _, r := range fr {
+			run.Add(r.term, r.descr, true)
+			for _, h := range r.hist {
+				run.Hist(h)
+			}
 		}
 	}
 
